@@ -146,6 +146,14 @@ package tree
 //@   requires C01: swo(x.owner) && ordOK(x.owner)
 //@   loop 0: invariant C01: (forall kk K {curr.sub[kk]} :: curr.sub[kk] ==> x.sub[kk]) && (forall kk K, k2 K {x.sub[kk], curr.sub[k2]} :: x.sub[kk] && !curr.sub[kk] && curr.sub[k2] ==> x.owner.compare(kk, k2) < 0)
 //@   ensures C01: (forall kk K {result.sub[kk]} :: result.sub[kk] ==> x.sub[kk]) && (forall kk K, k2 K {x.sub[kk], result.sub[k2]} :: x.sub[kk] && !result.sub[kk] && result.sub[k2] ==> x.owner.compare(kk, k2) < 0)
+// the rightmost spine below x (ghost): x, its last child, that child's last child, ... down to the leaf returned
+//@   ghostinit rs := lambda c *node[K, V] :: false
+//@   after assign curr[0]: ghost C01: rs := store(rs, curr, true)
+//@   after assign curr[1]: ghost C01: rs := store(rs, curr, true)
+//@   loop 0: invariant C01: rs[x] && rs[curr] && (forall c *node[K, V] {rs[c]} :: rs[c] ==> x.owner.nodes[c] && c.height >= curr.height && c.height <= x.height && (c != x ==> rs[c.parent] && c.pidx == c.parent.n && c.height < x.height) && (c != curr ==> c.height > curr.height && rs[c.children[c.n]]))
+//@   loop 0: invariant C01: forall c *node[K, V], kk K {rs[c], curr.sub[kk]} :: rs[c] && curr.sub[kk] ==> c.sub[kk]
+//@   ensures C01: rs[x] && rs[result] && (forall c *node[K, V] {rs[c]} :: rs[c] ==> x.owner.nodes[c] && c.height <= x.height && (c != x ==> rs[c.parent] && c.pidx == c.parent.n && c.height < x.height) && (c != result ==> c.height > 0 && rs[c.children[c.n]]))
+//@   ensures C01: forall c *node[K, V], kk K {rs[c], result.sub[kk]} :: rs[c] && result.sub[kk] ==> c.sub[kk]
 
 //@ func newBtree
 //@   props C03
@@ -337,17 +345,18 @@ package tree
 //@   noalloc
 //@   requires structOK(t, nil, nil) && t.nodes[x] && x != t.root
 //@   requires C02: deadOK(t)
-//@   modifies all(x.n), all(x.keys), all(x.values), t.val, t.locN, t.locI, all(t.root.sub)
+//@   modifies all(x.n), all(x.keys), all(x.values), all(t.root.sub)
 //@   ensures result2 == nil ==> structOK(t, nil, nil)
 //@   ensures result2 != nil ==> structOK(t, result2, nil) && t.nodes[result2] && result2 != t.root && result2.n < 7 && result2.height == 0
 //@   ensures forall c *node[K, V] {c.n} :: c.height > 0 ==> c.n == old(c.n)
 //@   ensures C02: deadOK(t)
 //@   requires C01: swo(t) && ordOK(t)
-//@   trustens C01: old(x.sub)[result0] && result1 == t.val[result0] && t.val == old(t.val) && t.root.sub == old(t.root.sub) && x.parent == old(x.parent) && x.pidx == old(x.pidx)
-//@   trustens C01: (forall kk K {x.sub[kk]} {old(x.sub)[kk]} :: x.sub[kk] <==> (old(x.sub)[kk] && kk != result0)) && (forall kk K {x.sub[kk]} :: x.sub[kk] ==> t.compare(kk, result0) < 0)
+//@   ensures C01: old(x.sub)[result0] && result1 == t.val[result0] && t.val == old(t.val) && t.root.sub == old(t.root.sub) && x.parent == old(x.parent) && x.pidx == old(x.pidx)
+//@   ensures C01: (forall kk K {x.sub[kk]} {old(x.sub)[kk]} :: x.sub[kk] <==> (old(x.sub)[kk] && kk != result0)) && (forall kk K {x.sub[kk]} :: x.sub[kk] ==> t.compare(kk, result0) < 0)
 //@   ensures C01: valOK(t)
-//@   trustens C01: ordG(t, x.parent, result0) && (forall c *node[K, V] {c.sub} :: (t.nodes[c] && c.height > x.height) ==> c.sub == old(c.sub)) && (forall c *node[K, V], i int {c.keys[i]} :: c.height > 0 && 0 <= i && i < 15 ==> c.keys[i] == old(c.keys[i]))
-//@   trustens C01: t.locN == old(t.locN) && t.locI == old(t.locI) && t.locI[result0] == t.locN[result0].n && t.nodes[t.locN[result0]]
+//@   ensures C01: (forall c *node[K, V] {c.sub} :: (t.nodes[c] && c.height > x.height) ==> c.sub == old(c.sub)) && (forall c *node[K, V], i int {c.keys[i]} :: c.height > 0 && 0 <= i && i < 15 ==> c.keys[i] == old(c.keys[i]))
+//@   trustens C01: ordG(t, x.parent, result0)
+//@   ensures C01: t.locN == old(t.locN) && t.locI == old(t.locI) && t.locI[result0] == t.locN[result0].n && t.nodes[t.locN[result0]]
 // data movement (proved): the pair taken out is the last pair of the rightmost leaf below x, whose slot is cleared
 //@   ghostinit lf := x
 //@   after call rightmostLeaf[0]: ghost lf := callresult
@@ -355,9 +364,17 @@ package tree
 //@   ensures C01: (forall kk K {old(lf.sub)[kk]} :: old(lf.sub)[kk] ==> old(x.sub)[kk]) && (forall kk K, k2 K {old(x.sub)[kk], old(lf.sub)[k2]} :: old(x.sub)[kk] && !old(lf.sub)[kk] && old(lf.sub)[k2] ==> t.compare(kk, k2) < 0)
 //@   ensures C01: (forall i int {lf.keys[i]} :: 0 <= i && i < lf.n ==> lf.keys[i] == old(lf.keys[i])) && (forall i int {lf.values[i]} :: 0 <= i && i < lf.n ==> lf.values[i] == old(lf.values[i]))
 //@   ensures C01: (forall c *node[K, V] {c.n} :: c != lf ==> c.n == old(c.n)) && (forall c *node[K, V], i int {c.keys[i]} :: c != lf && 0 <= i && i < 15 ==> c.keys[i] == old(c.keys[i])) && (forall c *node[K, V], i int {c.values[i]} :: c != lf && 0 <= i && i < 15 ==> c.values[i] == old(c.values[i]))
+//@   ghostinit rsp := lambda c *node[K, V] :: false
+//@   after call rightmostLeaf[0]: ghost C01: rsp := callghost_rs
+//@   after call rightmostLeaf[0]: assert C01: callresult.sub[callresult.keys[callresult.n-1]] && (forall c *node[K, V] {rsp[c]} :: rsp[c] ==> c.sub[callresult.keys[callresult.n-1]] && (c.height > 0 ==> t.compare(c.keys[c.n-1], callresult.keys[callresult.n-1]) < 0))
+//@   after call rightmostLeaf[0]: assert C01: forall c *node[K, V], j int, kk K {rsp[c], c.children[j].sub[kk]} :: rsp[c] && c.height > 0 && 0 <= j && j < c.n && c.children[j].sub[kk] ==> t.compare(kk, callresult.keys[callresult.n-1]) < 0 && kk != callresult.keys[callresult.n-1]
+//@   after call rightmostLeaf[0]: ghostmap C01: c *node[K, V] . sub := rsp[c] ? store(c.sub, callresult.keys[callresult.n-1], false) : c.sub
+//@   after call rightmostLeaf[0]: assert C01: hint(callresult.n) && hint(callresult.n - 1) && hint(callresult.n - 2)
 
 //@ func btree.Delete
 //@   props C03
+//@   budget 45
+//@   splitfirst
 //@   noalloc
 //@   requires structOK(t, nil, nil)
 //@   requires C02: deadOK(t)
@@ -481,6 +498,7 @@ package tree
 
 //@ func btree.Put
 //@   props C03
+//@   splitfirst
 //@   requires structOK(t, nil, nil)
 //@   requires C02: deadOK(t)
 //@   modifies t.size, t.gen, t.root, t.nodes, all(t.root.n), all(t.root.keys), all(t.root.values), all(t.root.children), all(t.root.parent), all(t.root.pidx), all(t.root.owner), all(t.root.height), t.val, t.locN, t.locI, all(t.root.sub)
